@@ -351,6 +351,35 @@ def oracle_api(run):
          _base=dict(method_kws={"ftol": 1e-9, "xtol": 1e-8, "max_nfev": 90}),
          method_kws={"max_nfev": 90, "xtol": 1e-8, "ftol": 1e-9})
     same("params equal-valued fresh object", params_initial=mkparams())
+    # equal settings, other object histories: a value assigned directly
+    # instead of through set(), results of an earlier fit left on the object
+    pa = mkparams()
+    pa["E"].value = 4321.0
+    pb = mkparams(E={"value": 4321.0})
+    same("params value assigned vs set", _base=dict(params_initial=pb),
+         params_initial=pa)
+    pc = mkparams()
+    for nm in pc:
+        pc[nm].stderr = 1.5
+        pc[nm].correl = {"baseline": 0.3}
+    same("params carrying stderr/correl of an earlier fit",
+         params_initial=pc)
+    try:
+        ifit = curves.make_indentation(n_app=40, n_ret=20)
+        ifit.apply_preprocessing(["compute_tip_position",
+                                  "correct_force_offset",
+                                  "correct_tip_offset"])
+        with warnings.catch_warnings():
+            warnings.simplefilter("ignore")
+            ifit.fit_model(**b)
+        pfit = ifit.fit_properties["params_fitted"]
+        pfresh = mkparams()
+        for nm in pfresh:
+            pfresh[nm].set(value=float(pfit[nm].value))
+        same("params_fitted of an earlier fit reused vs fresh equal values",
+             _base=dict(params_initial=pfresh), params_initial=pfit)
+    except BaseException as e:
+        run.count("c12-reuse-raised:" + type(e).__name__)
     # preprocessing options order: through apply_preprocessing
     i2 = curves.make_indentation(n_app=40, n_ret=20)
     i3 = curves.make_indentation(n_app=40, n_ret=20)
